@@ -162,13 +162,28 @@ def run(ctx: Ctx):
     for t in small:
         table(t, torch.float64)
         table(t, torch.float32)
+    # deterministic sweep: call, mutate the result in place, call again — every small triple × both dtypes × default dtype
+    for t in small:
+        for dt in (torch.float64, torch.float32, None):
+            kw = {} if dt is None else {"dtype": dt}
+            a = o3.wigner_3j(*t, **kw)
+            want = table(t, a.dtype)
+            a.mul_(3.0).add_(1.0)
+            b = o3.wigner_3j(*t, **kw)
+            ctx.case(f"call-mutate-call {t} {dt}", nontrivial=True, sample_every=60)
+            ctx.traces += 1
+            if not torch.equal(b, want) or b.data_ptr() == a.data_ptr() or not b.is_contiguous():
+                ctx.violation("wigner_3j/history/stale-or-shared", {"history": [f"call{t}{dt}", "mul_(3).add_(1)", f"call{t}{dt}"],
+                              "equal_to_pristine": bool(torch.equal(b, want)), "fresh_storage": b.data_ptr() != a.data_ptr()}, True)
+                return
     for h in range(n_hist):
+        pool = ctx.rng.sample(small, 3)   # few triples per history so that repeated calls of the same triple are frequent
         handles = []
         hist = []
         for stepi in range(ctx.rng.randint(2, 10)):
             op = ctx.rng.choice(["call", "call", "mutate", "mutate", "module", "call_default"])
             if op == "call" or not handles and op == "mutate":
-                t = ctx.rng.choice(small)
+                t = ctx.rng.choice(pool)
                 dt = ctx.rng.choice([torch.float64, torch.float32])
                 C = o3.wigner_3j(*t, dtype=dt)
                 hist.append(f"call{t}{str(dt)[6:]}")
@@ -180,7 +195,7 @@ def run(ctx: Ctx):
                     return
                 handles.append(C)
             elif op == "call_default":
-                t = ctx.rng.choice(small)
+                t = ctx.rng.choice(pool)
                 C = o3.wigner_3j(*t)
                 hist.append(f"call_default{t}")
                 if C.dtype != torch.get_default_dtype() or not torch.equal(C, table(t, C.dtype)):
